@@ -1,6 +1,7 @@
 import Model.Pass.Opt
 import Proofs.Lemmas.PyInt
 import Proofs.Lemmas.Alias
+import Proofs.Lemmas.Dead
 /-!
 # C04 — optimize() and its passes preserve observable behaviour
 
@@ -130,6 +131,20 @@ theorem alias_elimination_state_eq (b : Block) (c : Alias.Cert) (h : Alias.sched
     (step (Alias.applyCert b c) (Dco.orderOf (Alias.applyCert b c)) st inp).2 = (step b (Dco.orderOf b) st inp).2 :=
   (Alias.alias_step b c _ _ (Alias.schedsOkB_sound b c h).1 st inp hrange).2
 
+/-- **dead-logic removal (`_remove_unlistened_nets`) preserves every Output and every kept wire in every cycle of
+    every run**, from any state: `Dead.deadOk` (decidable, evaluated on every intercepted call) says that only
+    combinational nets that drive no Output are removed and that nothing kept — register and memory-write nets
+    included — reads a removed destination. -/
+theorem dead_logic_removal_run_eq (b : Block) (removed : List Net) (h : Dead.deadSchedsOkB b removed = true)
+    (st : State) (inps : List Env) :
+    Dco.AgreeOn (fun x => b.kind x = .output)
+      (run (Dead.applyDead b removed) (Dco.orderOf (Dead.applyDead b removed)) st inps) (run b (Dco.orderOf b) st inps) ∧
+    Dco.AgreeOn (fun x => ¬ Dead.RemovedDest removed x)
+      (run (Dead.applyDead b removed) (Dco.orderOf (Dead.applyDead b removed)) st inps) (run b (Dco.orderOf b) st inps) := by
+  obtain ⟨hs, hout⟩ := Dead.deadSchedsOkB_sound b removed h
+  have hrun := Dead.dead_run b removed _ _ hs inps st
+  exact ⟨Dco.AgreeOn.mono _ _ hout _ _ hrun, hrun⟩
+
 /-- non-vacuity: `t = a + c; y = t (w net); u = c + a; o1 = y; o2 = u` — the `w` net goes (readers of `y` read `t`) and
     the swapped addition is merged into the first -/
 def exAlias : Block :=
@@ -142,5 +157,9 @@ def exCert : Alias.Cert := { removed := [⟨.w, [2], [3]⟩, ⟨.add, [1, 0], [4
 
 example : Alias.schedsOkB exAlias exCert = true ∧
     (Alias.applyCert exAlias exCert).nets = [⟨.add, [0, 1], [2]⟩, ⟨.w, [2], [5]⟩, ⟨.w, [2], [6]⟩] := by decide
+
+/-- non-vacuity for dead-logic removal: the unread `u = c + a` of `exAlias` may go -/
+example : Dead.deadSchedsOkB { exAlias with nets := exAlias.nets.filter (fun n => n.dests != [6]) } [⟨.add, [1, 0], [4]⟩] = true := by
+  decide
 
 end Pyrtl.C04
